@@ -430,6 +430,28 @@ func checkC16Provisioning(w *World, r *Report) {
 					case newNode:
 						s.n = true
 					case fromRef:
+					default:
+						// a helper on the same transaction that records the parameter count on all its paths (t.grow(route))
+						if g := c.Call.StaticCallee(); g != nil && g != insert && len(g.Blocks) > 0 && g.Pkg == insert.Pkg && len(c.Call.Args) > 0 && c.Call.Args[0] == ssa.Value(insert.Params[0]) {
+							eachInstr(g, func(in2 ssa.Instruction) {
+								c2, ok := in2.(*ssa.Call)
+								if !ok || c2.Call.StaticCallee() != ump {
+									return
+								}
+								if _, f, ok := loadedField(c2.Call.Args[1]); !ok || f.Name() != "psLen" {
+									return
+								}
+								domAll := true
+								eachInstr(g, func(in3 ssa.Instruction) {
+									if rt, ok := in3.(*ssa.Return); ok && !instrDominates(c2, rt) {
+										domAll = false
+									}
+								})
+								if domAll {
+									s.p = true
+								}
+							})
+						}
 					}
 				}
 				if ret, ok := in.(*ssa.Return); ok && isNilConst(ret.Results[0]) {
